@@ -27,7 +27,7 @@ import ast
 
 from ..core import AnalysisError, norm, short
 from ..loader import FuncInfo
-from .dispatch import DispatchView, resolve_local
+from .dispatch import DispatchView, resolve_local, run_group
 from .noninterf import RequestPath, path_text
 from .common import (cfg_of, fkey, conds, has_cond, cond_texts, stmts_of, walk_body, call_tail, call_name, returns_of,
                      raises_of, raise_type, stmt_of, kwarg, protected_by, handler_reraises_always, isinstance_test)
@@ -332,7 +332,7 @@ def run(rep):
 
     # each group is analysed on its own: a construct one group cannot follow does not hide the verdicts of the others
     for group in (dispatch_rules, reraise_rules, store_rules, serialiser_rules, converter_rules, decoding_rules):
-        rep.guard(group)
+        run_group(rep, group)
 
 
 def _strict_codec_call(c):
